@@ -82,6 +82,8 @@ class Agg:
         v = self.violations.setdefault(key, {"count": 0, "what": what, "witnesses": []})
         v["count"] += 1
         if len(v["witnesses"]) < self.MAX_WITNESS:
+            if isinstance(witness, dict) and "environment" not in witness:
+                witness = dict(witness, environment=os.environ.get("VERIF_ENVIRONMENT", "default"))
             v["witnesses"].append(witness)
 
     def to_json(self):
@@ -150,6 +152,22 @@ def child_env(extra=None, hashseed="0"):
     return env
 
 
+# Process-level circumstances that are not part of any input: each shard of a run gets one of them (rotated by
+# the seed), so every check sees every circumstance on a share of its cases at no extra cost.
+ENVIRONMENTS = [
+    ("default", {}),
+    ("assertions-off", {"PYTHONOPTIMIZE": "1"}),
+    ("c-locale-ascii", {"LC_ALL": "C", "LANG": "C", "PYTHONUTF8": "0", "PYTHONCOERCECLOCALE": "0"}),
+    ("no-int-str-limit", {"PYTHONINTMAXSTRDIGITS": "0", "PYTHONDEVMODE": "1", "PYTHONWARNINGS": "ignore"}),
+]
+
+
+def environment_of(shard, seed):
+    if os.environ.get("VERIF_SINGLE_ENVIRONMENT") == "1":
+        return ENVIRONMENTS[0]
+    return ENVIRONMENTS[(int(shard) + int(seed)) % len(ENVIRONMENTS)]
+
+
 def run_shards(prop, tier, seed, nshards, mode="run", payload=None, timeout=3600, env=None,
                hashseed="0"):
     """Start nshards monitored children for property `prop`; returns list of agg dicts.
@@ -172,7 +190,12 @@ def run_shards(prop, tier, seed, nshards, mode="run", payload=None, timeout=3600
                     json.dump(payload, f)
                 cmd.append(pl)
             log = open(os.path.join(run_dir, f"log{s}.txt"), "wb")
-            p = subprocess.Popen(cmd, cwd=sd, env=child_env(env, hashseed), stdout=log,
+            ename, eenv = environment_of(s, seed) if mode == "run" else ENVIRONMENTS[0]
+            if mode == "replay" and isinstance(payload, dict) and isinstance(payload.get("case"), dict):
+                want = payload["case"].get("environment")
+                ename, eenv = next(((n, e) for n, e in ENVIRONMENTS if n == want), ENVIRONMENTS[0])
+            cenv = child_env(dict(eenv, VERIF_ENVIRONMENT=ename, **(env or {})), hashseed)
+            p = subprocess.Popen(cmd, cwd=sd, env=cenv, stdout=log,
                                  stderr=subprocess.STDOUT, stdin=subprocess.DEVNULL)
             procs.append((s, p, out, log))
         parts = []
